@@ -145,6 +145,39 @@ def sid_laws(a: str, b: str) -> bool:
     return True
 
 
+ORDER_POOL = ["h/*", "h/a/x/v1/*", "h/s,a", "*/*", "h/s/q1/v1/*", "h/a/x/v1/m"]
+ORDER_U = ["h/a", "h/s", "h/a/x/v1/m", "h/a/x/v1/g", "h/s/q1/v1/c", "h/s/q1/v1/m", "h/a/x", "h/s/q1"]
+
+
+def order_repeat(i: int, k: int) -> bool:
+    """
+    FindInAll asked the same multi-type search again and again (spil's caches ON): find_one == first(find), the
+    as_sid=False sequence == the strings of the as_sid=True sequence, exists == bool(find), on every repetition.
+    pre: 0 <= i < len(ORDER_POOL) and 1 <= k <= 3
+    post: _
+    """
+    env.clear_caches()
+    STUB.items = list(ORDER_U)
+    search = ORDER_POOL[i]
+
+    def run():
+        f = FindInAll()
+        for _ in range(k):
+            strs = list(f.find(search, as_sid=False))
+            sids = [str(x) for x in f.find(search, as_sid=True)]
+            one = f.find_one(search, as_sid=False)
+            if strs != sids:
+                return "as_sid-sequences-differ"
+            if (one or None) != (strs[0] if strs else None):
+                return "find_one-not-first-of-find"
+            if bool(f.exists(search)) != bool(strs):
+                return "exists-vs-find"
+        return ""
+
+    bad = _with_stub(run)
+    return not bad or fail(bad)
+
+
 def leaf_no_call(a: str) -> bool:
     """
     children() of a leaf Sid (PRE + a, any typed leaf) is [] and does not consult a Finder.
